@@ -35,7 +35,9 @@ def record_and_judge(tag, tier, n_quick=150, n_thorough=3000, max_objects=8):
     bounds = [i for i, r in enumerate(recs) if r["ev"] == "Reset"]
     verdicts, states, trans = vlib.validate_trace("Trace_Lifecycle.tla", "Trace_Lifecycle.cfg", recs, tag,
                                                   boundaries=bounds, chunks=1 if tier == "quick" else 12)
-    expected = sum(1 for r in recs if r["ev"] in ("Save", "Load"))
+    expected = sum(1 for r in recs if r["ev"] in ("Save", "Load", "File"))
+    if tier == "quick" and not any(r["ev"] == "Save" and r.get("cycle") == 3 for r in recs):
+        raise vlib.ToolError("vacuous: no plain save of a document loaded from a two-revision file was recorded")
     if len(verdicts) != expected:
         raise vlib.ToolError("trace validator judged %d of %d calls" % (len(verdicts), expected))
     return recs, verdicts, states, trans
